@@ -2,6 +2,7 @@ package rules
 
 import (
 	"fmt"
+	"go/token"
 	"go/types"
 	"sort"
 	"strings"
@@ -16,13 +17,116 @@ func init() {
 	darwinRules["C20"] = runC20
 }
 
-// notSupportedSites is the reviewed census of R20.2: site function → the kinds of cause it may wrap, each with the number of
-// distinct creation sites of that kind confirmed by reading. Keys are "<creating function>#<kind>(": the message text is not
-// part of the key (rewording a message is not a change of behaviour); an additional cause of the same kind changes the count.
-var notSupportedSites = map[string]map[string]int{
-	"sack.runSackTraceroute":               {"sack.dialSackTCP#": -1, "sack.runSackTraceroute#errorf(": 1}, // dial failure (any number of inner causes); platform cannot hold a second socket
-	"(*sack.sackDriver).handleHandshake":   {"(*sack.sackDriver).handleHandshake#errorf(": 1},             // SYNACK without SACK-permitted
-	"(*sack.sackDriver).handleProbeLayers": {"sack.getMinSack#errorf(": 1},                                  // ACK without SACK blocks
+// The reviewed census of R20.2 is keyed by REGION of the SACK implementation and kind of cause, not by function names or
+// message text (moving a switch arm into a method, extracting the socket set-up into a helper or rewording a message is not
+// a change of behaviour):
+//   recv      – the call tree of the SACK driver's ReceiveProbe: exactly one verdict, created under a guard on the reply
+//               (an acknowledgement without SACK blocks);
+//   handshake – the call tree of ReadHandshake outside recv: exactly one verdict under a guard (SYN-ACK without SACK-permitted);
+//   setup     – the rest of RunSackTraceroute's tree: any failure of the function that dials the target (io), and exactly one
+//               verdict created under a guard / state test (the platform cannot hold a second socket on the port).
+type nsSite struct {
+	region string
+	fn     *ssa.Function
+	pos    token.Pos
+	origin string
+	cause  string
+	ok     bool
+	why    string
+}
+
+func sackRegions(c *Ctx) (regionOf func(f *ssa.Function) string, okAnchors bool) {
+	var recvF, hsF, entry *ssa.Function
+	for _, d := range Drivers(c.P) {
+		if d.Pkg == "sack" {
+			recvF = d.ReceiveProbe
+		}
+	}
+	hsF = c.P.Func("(*sack.sackDriver).ReadHandshake")
+	entry = c.P.Func("sack.RunSackTraceroute")
+	if recvF == nil || hsF == nil || entry == nil {
+		return func(*ssa.Function) string { return "" }, false
+	}
+	inRecv, inHs, inEntry := map[*ssa.Function]bool{}, map[*ssa.Function]bool{}, map[*ssa.Function]bool{}
+	for _, f := range ModReach(c.P, recvF) {
+		inRecv[f] = true
+	}
+	for _, f := range ModReach(c.P, hsF) {
+		inHs[f] = true
+	}
+	for _, f := range ModReach(c.P, entry) {
+		inEntry[f] = true
+	}
+	return func(f *ssa.Function) string {
+		switch {
+		case inRecv[f]:
+			return "recv"
+		case inHs[f]:
+			return "handshake"
+		case inEntry[f]:
+			return "setup"
+		}
+		return ""
+	}, true
+}
+
+// notSupportedCensus enumerates every creation of a sack.NotSupportedError with its region and verdict.
+func notSupportedCensus(c *Ctx) (sites []nsSite, counts map[string]int, anchors bool) {
+	regionOf, anchors := sackRegions(c)
+	ea := NewErrAnalysis(c)
+	counts = map[string]int{}
+	seen := map[string]bool{}
+	for _, f := range c.P.ModFuncs {
+		for _, b := range f.Blocks {
+			for _, in := range b.Instrs {
+				mi, ok := in.(*ssa.MakeInterface)
+				if !ok || wrapperTag(mi.X.Type()) != "NotSupported" {
+					continue
+				}
+				if _, isAlloc := mi.X.(*ssa.Alloc); !isAlloc {
+					continue
+				}
+				region := regionOf(f)
+				for _, e := range ea.classOf(mi, f, map[ssa.Value]bool{}).sorted() {
+					st := nsSite{region: region, fn: f, pos: mi.Pos(), origin: e.Origin, cause: e.Cause}
+					dial := false
+					if e.Fn != nil {
+						for _, g := range ModReach(c.P, e.Fn) {
+							if len(dialCalls(c, []*ssa.Function{g})) > 0 {
+								dial = true
+							}
+						}
+					}
+					kind := ""
+					switch {
+					case region == "setup" && dial && e.Fn != f:
+						kind = "setup/dial"
+						st.ok, st.why = true, "failure of the function that dials the target"
+					case region == "setup" && (e.Cause == "guard" || e.Cause == "state"):
+						kind = "setup/guard"
+						st.ok, st.why = true, "verdict created under a test of the platform / socket state"
+					case region == "handshake" && e.Cause == "guard":
+						kind = "handshake/guard"
+						st.ok, st.why = true, "verdict created under a guard on the handshake reply"
+					case region == "recv" && e.Cause == "guard":
+						kind = "recv/guard"
+						st.ok, st.why = true, "verdict created under a guard on the reply"
+					default:
+						st.why = "a " + e.Cause + " failure in the " + region + " region"
+					}
+					if kind != "" && kind != "setup/dial" && !seen[kind+"|"+e.Origin] {
+						seen[kind+"|"+e.Origin] = true
+						counts[kind]++
+					}
+					if kind == "setup/dial" {
+						counts[kind] = 1
+					}
+					sites = append(sites, st)
+				}
+			}
+		}
+	}
+	return sites, counts, anchors
 }
 
 func runC20(c *Ctx) {
@@ -177,57 +281,30 @@ func checkSelector(c *Ctx) []string {
 // checkNotSupportedCensus is R20.2.
 func checkNotSupportedCensus(c *Ctx) {
 	R := c.R
-	ea := NewErrAnalysis(c)
-	n := 0
-	found := map[string]map[string]bool{} // site|prefix → distinct origins
-	for _, f := range c.P.ModFuncs {
-		for _, b := range f.Blocks {
-			for _, in := range b.Instrs {
-				mi, ok := in.(*ssa.MakeInterface)
-				if !ok || wrapperTag(mi.X.Type()) != "NotSupported" {
-					continue
-				}
-				if _, isAlloc := mi.X.(*ssa.Alloc); !isAlloc {
-					continue
-				}
-				n++
-				fn := core.FuncName(f)
-				for _, e := range ea.classOf(mi, f, map[ssa.Value]bool{}).sorted() {
-					key := fmt.Sprintf("%s#NotSupported(%s)", fn, shortOrigin(e.Origin))
-					allowed := false
-					for pre := range notSupportedSites[fn] {
-						if strings.HasPrefix(e.Origin, pre) {
-							allowed = true
-							if found[fn+"|"+pre] == nil {
-								found[fn+"|"+pre] = map[string]bool{}
-							}
-							found[fn+"|"+pre][e.Origin] = true
-						}
-					}
-					if allowed {
-						R.OK("R20.2", key, mi.Pos(), fn, "reviewed capability verdict wrapping "+e.Origin)
-					} else {
-						R.Fail("R20.2", key, mi.Pos(), fn, "a NotSupportedError is created around "+e.Origin+" (cause "+e.Cause+"), which is not one of the reviewed capability situations: under prefer_sack this failure would silently fall back to SYN instead of being reported")
-					}
-				}
-			}
+	sites, counts, anchors := notSupportedCensus(c)
+	if !anchors {
+		R.Fail("R20.2", "sack#anchors", 0, "", "RunSackTraceroute / ReadHandshake / the SACK driver's ReceiveProbe no longer resolve")
+		return
+	}
+	for _, st := range sites {
+		fn := core.FuncName(st.fn)
+		key := fmt.Sprintf("%s#NotSupported(%s)", fn, shortOrigin(st.origin))
+		if st.ok {
+			R.OK("R20.2", key, st.pos, fn, "reviewed capability verdict ("+st.region+"): "+st.why+", wrapping "+st.origin)
+		} else {
+			R.Fail("R20.2", key, st.pos, fn, "a NotSupportedError is created around "+st.origin+" (cause "+st.cause+"), which is not one of the reviewed capability situations ("+st.why+"): under prefer_sack this failure would silently fall back to SYN instead of being reported")
 		}
 	}
-	R.Floor("R20.2:NotSupported-sites", n, 4)
-	for fn, pres := range notSupportedSites {
-		for pre, want := range pres {
-			got := len(found[fn+"|"+pre])
-			switch {
-			case got == 0:
-				R.Fail("R20.2", fn+"#expected["+pre+"]", 0, fn, "the reviewed capability verdict ("+pre+"…) is no longer produced: SACK unavailability would surface as a fatal error instead of a fallback")
-			case want >= 0 && got > want:
-				var os []string
-				for o := range found[fn+"|"+pre] {
-					os = append(os, shortOrigin(o))
-				}
-				sort.Strings(os)
-				R.Fail("R20.2", fn+"#census["+pre+"]", 0, fn, fmt.Sprintf("%d distinct causes of kind %s are wrapped into a NotSupportedError (%s) where %d was reviewed: an additional failure cause now falls back to SYN silently under prefer_sack", got, pre, strings.Join(os, "; "), want))
-			}
+	R.Floor("R20.2:NotSupported-sites", len(sites), 4)
+	for _, kind := range []string{"setup/dial", "setup/guard", "handshake/guard", "recv/guard"} {
+		got := counts[kind]
+		switch {
+		case got == 0:
+			R.Fail("R20.2", "sack#expected["+kind+"]", 0, "", "the reviewed capability verdict of kind "+kind+" is no longer produced: SACK unavailability would surface as a fatal error instead of a fallback")
+		case got > 1:
+			R.Fail("R20.2", "sack#census["+kind+"]", 0, "", fmt.Sprintf("%d distinct causes of kind %s are wrapped into a NotSupportedError where one was reviewed: an additional failure cause now falls back to SYN silently under prefer_sack", got, kind))
+		default:
+			R.OK("R20.2", "sack#census["+kind+"]", 0, "", "exactly the reviewed verdict of this kind")
 		}
 	}
 }
@@ -277,9 +354,17 @@ func checkClassSurvives(c *Ctx) {
 			lost[e.Origin] = true
 		}
 	}
-	for fn := range notSupportedSites {
+	sites, _, _ := notSupportedCensus(c)
+	done := map[string]bool{}
+	for _, st := range sites {
+		fn := core.FuncName(st.fn)
+		if done[fn] || !st.ok {
+			continue
+		}
+		done[fn] = true
 		R.Check(got[fn], "R20.3", "doSack#class-survives["+fn+"]", ds.Pos(), core.FuncName(ds), "the NotSupportedError created in "+fn+" reaches the selector with its type intact (every wrapping on the way uses %w)", "the NotSupportedError created in "+fn+" does not reach the selector as such: a wrapping on the way drops the class (errors.As would not find it, prefer_sack would not fall back)")
 	}
+	R.Floor("R20.3:verdict-sites", len(done), 3)
 	for o := range lost {
 		R.Fail("R20.3", "doSack#unwrapped["+shortOrigin(o)+"]", ds.Pos(), core.FuncName(ds), "on the SACK path an error is re-created without %w ("+o+"): the class of the cause is lost on its way to the selector")
 	}
